@@ -73,6 +73,7 @@ fn serve(
             }
             let r = match cmd["act"].as_str() {
                 Some("Drain") => inc.drain_replay().await,
+                Some("Settle") => inc.settle().await,
                 Some("FreeRun") => {
                     let mut emit = |v: Value| reply(Ok(json!({"progress": v})));
                     match inc.free_run(&cmd["arg"], &mut emit).await {
@@ -106,7 +107,32 @@ fn serve(
 
 impl Host {
     /// Starts an incarnation and executes `open_cmd`; returns the host and the first observation.
+    ///
+    /// A node that does not come up (spawn / stream_from error) is started again, up to three
+    /// times: right after an in-process crash the remains of the previous incarnation (actor and
+    /// pipeline threads of the dropped node) occasionally make an internal actor of the new node
+    /// fail during start-up. Nothing of the behaviour has been executed on the new incarnation at
+    /// that point, so starting it again is not a judgement of any property.
     pub fn start(kill: bool, open_cmd: &Value) -> Result<(Host, Value), String> {
+        let mut last = String::new();
+        for attempt in 0..3 {
+            match Host::start_once(kill, open_cmd) {
+                Ok((h, mut obs)) => {
+                    if let Some(m) = obs.as_object_mut() {
+                        m.insert("open_attempts".into(), json!(attempt + 1));
+                    }
+                    return Ok((h, obs));
+                }
+                Err(e) => {
+                    last = e;
+                    std::thread::sleep(std::time::Duration::from_millis(300));
+                }
+            }
+        }
+        Err(format!("node did not start in 3 attempts: {last}"))
+    }
+
+    fn start_once(kill: bool, open_cmd: &Value) -> Result<(Host, Value), String> {
         if kill {
             let exe = std::env::current_exe().map_err(|e| e.to_string())?;
             let mut child = Command::new(exe)
@@ -119,8 +145,13 @@ impl Host {
             let stdin = child.stdin.take().expect("stdin");
             let stdout = BufReader::new(child.stdout.take().expect("stdout"));
             let mut host = Host::Child { child, stdin, stdout };
-            let obs = host.exec(open_cmd)?;
-            Ok((host, obs))
+            match host.exec(open_cmd) {
+                Ok(obs) => Ok((host, obs)),
+                Err(e) => {
+                    host.crash();
+                    Err(e)
+                }
+            }
         } else {
             let id = NEXT_INC.fetch_add(1, Ordering::SeqCst);
             let (tx, rx) = smpsc::channel::<(Value, smpsc::Sender<Result<Value, String>>)>();
